@@ -230,6 +230,22 @@ Section FS.
         + intros rt Hrt et Hin. apply in_map_iff in Hrt. destruct Hrt as (rt0 & <- & Hrt0).
           destruct Hin as [<- | Hin]; [right; left; reflexivity | left; exact (HR rt0 Hrt0 et Hin)].
     Qed.
+    Lemma PorQuery_outside_K source target e : PorQuery source target e -> K_query_edge source target e = false -> P e.
+    Proof.
+      unfold K_query_edge. intros [H | [-> | ->]] HK; [exact H | |].
+      - rewrite Nat.eqb_refl in HK. discriminate.
+      - rewrite Nat.eqb_refl, orb_true_r in HK. discriminate.
+    Qed.
+    Lemma run_edge_oriented_outside_K d (alg : nat -> option nat -> res sresult) source target r :
+      (forall s t r', alg s t = Ok r' -> ResultAll r') ->
+      run_edge_oriented d alg source target = Ok r ->
+      (forall tr, In tr (r_trees r) -> forall v b, tr !! v = Some b -> K_query_edge source target (edge_of b) = false -> P (edge_of b)) /\
+      (forall rt, In rt (r_routes r) -> forall et, In et rt -> K_query_edge source target (et_edge et) = false -> P (et_edge et)).
+    Proof.
+      intros Halg H. destruct (run_edge_oriented_all d alg source target r Halg H) as [HT HR]. split.
+      - intros tr Htr v b Hv. exact (PorQuery_outside_K _ _ _ (HT tr Htr v b Hv)).
+      - intros rt Hrt et Hin. exact (PorQuery_outside_K _ _ _ (HR rt Hrt et Hin)).
+    Qed.
   End AcceptedEdges.
 
   (* ---------------------------------------------------------------- restricted turns under no_reopen *)
@@ -428,6 +444,16 @@ Section FS.
         exact (backtrack_pairs _ _ _ HT _ _ _ _ Er I I).
       - inversion H; subst; cbn [r_routes]. intros rt [].
     Qed.
+    (* the same in travel order, outside the classes K_reverse_turn and K_reopen *)
+    Theorem run_vertex_oriented_turn_travel fuel d source target r :
+      K_reverse_turn d = false ->
+      K_reopen clt cadd czero cfloor g frontier traverse estimate init_state terminate fuel d source target = false ->
+      run_vertex_oriented fuel d source target = Ok r ->
+      forall rt, In rt (r_routes r) -> pairs_ok (travel d (map (@et_edge C St) rt)).
+    Proof.
+      intros Hd Hk H rt Hin. destruct d; [|discriminate]. cbn [travel]. unfold K_reopen in Hk. apply negb_false_iff in Hk.
+      exact (run_vertex_oriented_turn _ _ _ _ _ H Hk rt Hin).
+    Qed.
   End Turns.
 End FS.
 
@@ -442,4 +468,27 @@ Proof.
   split; [vm_compute; reflexivity|]. split; [reflexivity|]. split.
   - intros e st p H. unfold Witness.frontier in H. inversion H as [H']. apply negb_true_iff in H'. exact H'.
   - split; vm_compute; reflexivity.
+Qed.
+
+Lemma query_edges_witness :
+  WitnessQueryEdges.route_edges = Ok [[0; 1; 2; 3]]
+  /\ WitnessQueryEdges.ok 0 = false
+  /\ (forall e st prev, WitnessQueryEdges.frontier e st prev = Ok true -> WitnessQueryEdges.ok e = true)
+  /\ K_query_edge 0 (Some 3) 0 = true.
+Proof.
+  split; [vm_compute; reflexivity|]. split; [reflexivity|]. split; [|reflexivity].
+  intros e st prev H. unfold WitnessQueryEdges.frontier in H. congruence.
+Qed.
+
+Lemma reverse_turn_witness :
+  WitnessReverseTurn.route_edges = Ok [[3; 2; 1; 0]]
+  /\ rmap (map (travel Reverse)) WitnessReverseTurn.route_edges = Ok [[0; 1; 2; 3]]
+  /\ WitnessReverseTurn.restricted 1 2 = true
+  /\ (forall e st p, WitnessReverseTurn.frontier e st (Some p) = Ok true -> WitnessReverseTurn.restricted p e = false)
+  /\ WitnessReverseTurn.reopens = false
+  /\ K_reverse_turn Reverse = true.
+Proof.
+  split; [vm_compute; reflexivity|]. split; [vm_compute; reflexivity|]. split; [reflexivity|]. split.
+  - intros e st p H. unfold WitnessReverseTurn.frontier in H. inversion H as [H']. apply negb_true_iff in H'. exact H'.
+  - split; [vm_compute; reflexivity | reflexivity].
 Qed.
